@@ -6,10 +6,17 @@ message count, UIDNEXT and content) before and after the step.
 
   judge-c17-wire <maxMailboxes> <maxMessages> <maxUID> <op …> | <world before> => <status> | <world after>
 
-  op      append <mbox> | copy <src> <n> <dst> | move <src> <n> <dst> | create <name> | kcreate <name>
+  op      append <mbox> | copy <src> <lo> <hi> <dst> | move <src> <lo> <hi> <dst> | create <name> | kcreate <name>
           | batch <mbox> <n> | batch2 <mbox1> <n1> <mbox2> <n2> | race <mbox> | aux <text>
-  world   <name>:<count>:<uidnext>:<content>;…   content = <uid>.<size>+… | -   (all mailboxes, the
-          recovery mailbox `Recovered_Messages` included; names without blanks, `/` = delimiter)
+          | flush <status of the command> (the connector's queued echo of the command is applied;
+            `ok+diverged`: accepted, but a COPY / MOVE was refused earlier in the history — gluon had told
+            the connector before its limit check, so the connector's view of the mailboxes differs since)
+          (copy / move: the messages with sequence numbers lo..hi of <src>; <dst> may hold copies of
+          some of them already and may be <src> itself)
+  world   <name>:<count>:<uidnext>:<content>;…   content = <uid>.<marker>[r]+… | -   (all mailboxes, the
+          recovery mailbox `Recovered_Messages` included; names without blanks, `/` = delimiter; the
+          marker (RFC822.SIZE, unique per message the harness creates) identifies a message across
+          mailboxes; `r` marks the two messages of a RACE step, which share one marker)
   status  ok | no | effect (connector updates: there is no tagged reply, the effect is the answer)
           | <s1>,<s2> for race
 
@@ -18,7 +25,13 @@ What is decided here (Lean, not Go):
                   mailbox's UIDNEXT over the maxima (`Limits.Within`), judged on the observed world;
   * refusal     — a step answered NO leaves the world exactly as it was;
   * fitting     — a step that fits (`Limits.step` of the model accepts it and stays `Within`) is accepted;
-  * tie         — an accepted step changes the world as `Limits.step` predicts.
+  * tie         — an accepted step changes the world as `Limits.step` predicts: COPY / MOVE of n
+                  messages of which k already have a copy in the destination is the model event
+                  `replaceTx k n` (k is computed here from the observed contents); the destination then
+                  holds its other messages unchanged plus the n messages under the UIDs
+                  UIDNEXT … UIDNEXT+n-1, the source of a MOVE loses exactly the moved messages;
+  * uids        — after every step each mailbox's UIDs are below its UIDNEXT, messages that were
+                  there before keep their UID, new ones get UIDs from the old UIDNEXT upwards.
 -/
 import GluonModel.Model.Limits
 
@@ -49,6 +62,28 @@ def parseWorld (s : String) : Option WorldObs :=
 
 def contentLen (x : String) : Nat := if x == "-" then 0 else (x.splitOn "+").length
 
+/-- one message of a mailbox as observed: UID, identity marker, member of a RACE pair -/
+structure Item where
+  uid : Nat
+  mark : Nat
+  twin : Bool
+deriving DecidableEq, Repr
+
+def parseItem (s : String) : Option Item :=
+  match s.splitOn "." with
+  | [u, m] =>
+    let twin := m.endsWith "r"
+    let m' := if twin then (m.take (m.length - 1)).toString else m
+    do some { uid := ← u.toNat?, mark := ← m'.toNat?, twin := twin }
+  | _ => none
+
+def parseItems (x : String) : Option (List Item) :=
+  if x == "-" then some [] else (x.splitOn "+").mapM parseItem
+
+def itemsOf (m : MB) : List Item := (parseItems m.content).getD []
+
+def sortNat (l : List Nat) : List Nat := l.mergeSort (fun a b => a ≤ b)
+
 def find (w : WorldObs) (n : String) : Option MB := w.find? (·.name == n)
 
 /-- proper superiors of a `/`-separated name -/
@@ -62,43 +97,96 @@ def toWorld (w : WorldObs) (m : MB) : World :=
 
 inductive Op where
   | append (mb : String)
-  | copy (src : String) (n : Nat) (dst : String)
-  | move (src : String) (n : Nat) (dst : String)
+  | copy (src : String) (lo hi : Nat) (dst : String)
+  | move (src : String) (lo hi : Nat) (dst : String)
   | create (name : String)
   | kcreate (name : String)
   | batch (mb : String) (n : Nat)
   | batch2 (mb1 : String) (n1 : Nat) (mb2 : String) (n2 : Nat)
   | race (mb : String)
-  | flush
+  | flush (after : String)      -- status of the command whose connector echo is applied
   | aux
 
 def parseOp : List String → Option Op
   | ["append", m] => some (.append m)
-  | ["copy", s, n, d] => n.toNat?.map fun k => .copy s k d
-  | ["move", s, n, d] => n.toNat?.map fun k => .move s k d
+  | ["copy", s, lo, hi, d] => do some (.copy s (← lo.toNat?) (← hi.toNat?) d)
+  | ["move", s, lo, hi, d] => do some (.move s (← lo.toNat?) (← hi.toNat?) d)
   | ["create", n] => some (.create n)
   | ["kcreate", n] => some (.kcreate n)
   | ["batch", m, n] => n.toNat?.map fun k => .batch m k
   | ["batch2", m1, n1, m2, n2] => do some (.batch2 m1 (← n1.toNat?) m2 (← n2.toNat?))
   | ["race", m] => some (.race m)
-  | ["flush"] => some .flush
+  | ["flush"] => some (.flush "no")
+  | ["flush", st] => some (.flush st)
   | "aux" :: _ => some .aux
   | _ => none
+
+/-- the message set of a COPY / MOVE `lo:hi` as observed before the step -/
+structure Sel where
+  items : List Item           -- the selected messages of the source, in sequence (= UID) order
+  k : Nat                     -- how many of them already have a copy in the destination
+  ambiguous : Bool            -- a selected RACE message shares its marker with a message of the destination:
+                              -- whether that is a copy of it or of its twin cannot be told from the observation
+deriving Repr
+
+def select (w : WorldObs) (src : String) (lo hi : Nat) (dst : String) : Option Sel :=
+  match find w src, find w dst with
+  | some s, some d =>
+    if lo == 0 || hi < lo || hi > s.count then none else
+    let sel := ((itemsOf s).drop (lo - 1)).take (hi + 1 - lo)
+    let dmarks := (itemsOf d).map (·.mark)
+    some { items := sel, k := (sel.filter fun i => dmarks.contains i.mark).length,
+           ambiguous := sel.any fun i => i.twin && dmarks.contains i.mark }
+  | _, _ => none
+
+/-- what the model machine predicts for one mailbox the step changes: count, UIDNEXT and a test of
+    the content (before, after) -/
+structure Change where
+  name : String
+  count : Nat
+  uidNext : Nat
+  content : List Item → List Item → Bool := fun _ _ => true
 
 /-- what the model machine predicts for (mailboxes, per-mailbox count/uidNext); `none` = the model
     refuses the step (world unchanged) -/
 structure Pred where
   mailboxes : Nat
-  changed : List (String × Nat × Nat)      -- name, count, uidNext of the mailboxes the step changes
-deriving Repr
+  changed : List Change
 
-def addTo (l : IMAP) (w : WorldObs) (mb : String) (n : Nat) : Option (String × Nat × Nat) :=
+def key (i : Item) : Nat × Nat := (i.uid, i.mark)
+
+/-- the destination of an accepted COPY / MOVE: the messages that are not replaced stay as they are;
+    the `sel` messages appear under the UIDs `u … u + n - 1` -/
+def replacedContent (sel : List Item) (u : Nat) (before after : List Item) : Bool :=
+  let marks := sel.map (·.mark)
+  let kept := before.filter fun i => !marks.contains i.mark
+  let old := after.filter fun i => i.uid < u
+  let new := after.filter fun i => i.uid ≥ u
+  old.map key == kept.map key &&
+    new.map (·.uid) == List.range' u sel.length &&
+    sortNat (new.map (·.mark)) == sortNat marks
+
+/-- the source of an accepted MOVE (to another mailbox): exactly the selected messages are gone -/
+def removedContent (sel : List Item) (before after : List Item) : Bool :=
+  after.map key == (before.filter fun i => !(sel.map (·.uid)).contains i.uid).map key
+
+def addTo (l : IMAP) (w : WorldObs) (mb : String) (n : Nat) : Option Change :=
   match find w mb with
   | none => none
   | some m =>
     let w0 := toWorld w m
     let w1 := step l w0 (.addTx n)
-    if w1 == w0 && n > 0 then none else some (mb, w1.count, w1.uidNext)
+    if w1 == w0 && n > 0 then none else some { name := mb, count := w1.count, uidNext := w1.uidNext }
+
+/-- COPY / MOVE into `dst`: the model event `replaceTx k n` -/
+def replaceIn (l : IMAP) (w : WorldObs) (dst : String) (sel : Sel) : Option Change :=
+  match find w dst with
+  | none => none
+  | some m =>
+    let w0 := toWorld w m
+    let w1 := step l w0 (.replaceTx sel.k sel.items.length)
+    if w1 == w0 then none
+    else some { name := dst, count := w1.count, uidNext := w1.uidNext, content := replacedContent sel.items m.uidNext }
 
 def predict (l : IMAP) (w : WorldObs) : Op → Option Pred
   | .append mb =>
@@ -107,12 +195,21 @@ def predict (l : IMAP) (w : WorldObs) : Op → Option Pred
     | some m =>
       let w0 := toWorld w m
       let w1 := step l (step l w0 (.check 0 1)) (.insert 0)
-      if w1.count == w0.count then none else some { mailboxes := w.length, changed := [(mb, w1.count, w1.uidNext)] }
-  | .copy _ n dst => (addTo l w dst n).map fun c => { mailboxes := w.length, changed := [c] }
-  | .move src n dst =>
-    match addTo l w dst n, find w src with
-    | some c, some s => some { mailboxes := w.length, changed := [c, (src, s.count - n, s.uidNext)] }
-    | _, _ => none
+      if w1.count == w0.count then none else some { mailboxes := w.length, changed := [{ name := mb, count := w1.count, uidNext := w1.uidNext }] }
+  | .copy src lo hi dst =>
+    match select w src lo hi dst with
+    | none => none
+    | some sel => (replaceIn l w dst sel).map fun c => { mailboxes := w.length, changed := [c] }
+  | .move src lo hi dst =>
+    match select w src lo hi dst with
+    | none => none
+    | some sel =>
+      match replaceIn l w dst sel, find w src with
+      | some c, some s =>
+        if src == dst then some { mailboxes := w.length, changed := [c] }
+        else some { mailboxes := w.length,
+                    changed := [c, { name := src, count := s.count - sel.items.length, uidNext := s.uidNext, content := removedContent sel.items }] }
+      | _, _ => none
   | .create name =>
     let parents := ((superiors name).filter fun s => (find w s).isNone).length
     let w0 : World := { mailboxes := w.length, count := 0, uidNext := 1, passed := [] }
@@ -133,8 +230,8 @@ def predict (l : IMAP) (w : WorldObs) : Op → Option Pred
     | some m =>
       let w0 := toWorld w m
       let w1 := runEvs l [.check 0 1, .check 1 1, .insert 0, .insert 1] w0
-      if w1.count == w0.count then none else some { mailboxes := w.length, changed := [(mb, w1.count, w1.uidNext)] }
-  | .flush => none
+      if w1.count == w0.count then none else some { mailboxes := w.length, changed := [{ name := mb, count := w1.count, uidNext := w1.uidNext }] }
+  | .flush _ => none
   | .aux => none
 
 /-- does the observed world `after` equal `before` modified as predicted? (contents of unchanged
@@ -145,8 +242,8 @@ def matchesPred (before after : WorldObs) (p : Pred) : Bool :=
     match find after b.name with
     | none => false
     | some a =>
-      match p.changed.find? (·.1 == b.name) with
-      | some (_, c, u) => a.count == c && a.uidNext == u
+      match p.changed.find? (·.name == b.name) with
+      | some c => a.count == c.count && a.uidNext == c.uidNext && c.content (itemsOf b) (itemsOf a)
       | none => a == b) &&
   after.all (fun a => (find before a.name).isSome || a.count == 0)
 
@@ -157,6 +254,17 @@ def sameWorld (before after : WorldObs) : Bool :=
 def sameButRecovery (before after : WorldObs) : Bool :=
   before.length == after.length &&
   before.all fun b => b.name == recoveryKey || find after b.name == some b
+
+/-- UIDs after a step: below UIDNEXT; a message with a UID below the old UIDNEXT was there before
+    under that UID (nothing is renumbered, no UID is handed out twice) -/
+def uidsSane (before after : WorldObs) : Option String :=
+  after.findSome? fun a =>
+    let b := (find before a.name).getD { name := a.name, count := 0, uidNext := 1, content := "-" }
+    let bi := (itemsOf b).map key
+    if (itemsOf a).any (fun i => i.uid ≥ a.uidNext) then some s!"uid-not-below-uidnext({a.name})"
+    else if a.uidNext < b.uidNext then some s!"uidnext-decreased({a.name})"
+    else if (itemsOf a).any (fun i => i.uid < b.uidNext && !bi.contains (key i)) then some s!"old-uid-reused({a.name})"
+    else none
 
 /-- a maximum is exceeded after the step by something the step itself grew -/
 def newExcess (l : IMAP) (before after : WorldObs) : Option String :=
@@ -171,44 +279,84 @@ def newExcess (l : IMAP) (before after : WorldObs) : Option String :=
         some s!"uidnext({a.name})={a.uidNext}>max={l.maxUID}"
       else none)
 
+def isCopyMove : Op → Bool
+  | .copy .. => true | .move .. => true | _ => false
+
 def excessCause (op : Op) (before : WorldObs) (what : String) : String :=
   if (what.splitOn recoveryKey).length > 1 then "refused-append-recovered" else
   match op with
   | .create name => if ((superiors name).filter fun s => (find before s).isNone).length > 0 then "implicit-parents" else "limit-exceeded"
   | .race _ => "check-outside-tx"
-  | _ => "limit-exceeded"
+  | .kcreate _ => "limit-exceeded"
+  | _ => if what.startsWith "uidnext" then "uid-above-maximum"
+         else if what.startsWith "messages" then "count-above-maximum" else "limit-exceeded"
 
 def kindOf : Op → String
-  | .append _ => "append" | .copy _ n _ => if n > 1 then "copy-multi" else "copy" | .move _ n _ => if n > 1 then "move-multi" else "move"
-  | .create _ => "create" | .kcreate _ => "kcreate" | .batch _ _ => "batch" | .batch2 .. => "batch2" | .race _ => "race" | .flush => "flush" | .aux => "aux"
+  | .append _ => "append"
+  | .copy s lo hi d => (if hi > lo then "copy-multi" else "copy") ++ (if s == d then "-self" else "")
+  | .move s lo hi d => (if hi > lo then "move-multi" else "move") ++ (if s == d then "-self" else "")
+  | .create _ => "create" | .kcreate _ => "kcreate" | .batch _ _ => "batch" | .batch2 .. => "batch2" | .race _ => "race" | .flush _ => "flush" | .aux => "aux"
+
+/-- overlap class of a COPY / MOVE (for the statistics): none / some / all of the set is in the destination already -/
+def overlapOf (w : WorldObs) : Op → String
+  | .copy s lo hi d | .move s lo hi d =>
+    match select w s lo hi d with
+    | some sel => if sel.k == 0 then "-dup0" else if sel.k == sel.items.length then "-dupall" else "-dupsome"
+    | none => ""
+  | _ => ""
+
+/-- a refused COPY / MOVE after which the destination no longer holds a message it held before -/
+def lostFromDst (before after : WorldObs) : Op → Bool
+  | .copy _ _ _ d | .move _ _ _ d =>
+    match find before d, find after d with
+    | some b, some a => (itemsOf b).any fun i => !((itemsOf a).map key).contains (key i)
+    | _, _ => false
+  | _ => false
+
+def refusedChangedCause (before after : WorldObs) (op : Op) : String :=
+  if lostFromDst before after op then
+    (match op with
+     | .move .. => "refused-move-lost-destination-copies"
+     | _ => "refused-copy-lost-destination-copies")
+  else "refused-but-changed"
 
 def judge (l : IMAP) (op : Op) (before after : WorldObs) (status : String) : String :=
-  if !(after.all fun a => contentLen a.content == a.count) then "violation inconsistent-observation cause=harness-observation" else
+  if !(after.all fun a => contentLen a.content == a.count && (parseItems a.content).isSome) then "violation inconsistent-observation cause=harness-observation" else
   -- applying the connector's queued echo of an IMAP command must not change anything
-  if (match op with | .flush => true | _ => false) then
-    (if sameWorld before after then "ok trivial-flush" else "violation connector-echo-changed-the-world cause=connector-echo-after-refusal") else
+  if let .flush st := op then
+    (if sameWorld before after then "ok trivial-flush"
+     else if st == "ok" then "violation connector-echo-changed-the-world cause=connector-echo-after-accepted"
+     else "violation connector-echo-changed-the-world cause=connector-echo-after-refusal") else
   match newExcess l before after with
-  | some what => s!"violation limit-exceeded {what} cause={excessCause op before what} op={kindOf op}"
+  | some what => s!"violation limit-exceeded {what} cause={excessCause op before what} op={kindOf op}{overlapOf before op}"
   | none =>
     let pred := predict l before op
+    let ambiguous : Bool := match op with
+      | .copy s lo hi d | .move s lo hi d => (select before s lo hi d).any (·.ambiguous)
+      | _ => false
     match op with
     | .aux => "ok trivial-aux"
     | _ =>
+      match uidsSane before after with
+      | some what => s!"violation uids-not-sane {what} cause=uid-assignment op={kindOf op}{overlapOf before op}"
+      | none =>
       if status == "no" then
         if !sameWorld before after then
           (if sameButRecovery before after then s!"violation refused-operation-stored-the-message-in-the-recovery-mailbox cause=refused-append-recovered op={kindOf op}"
-           else s!"violation refused-operation-changed-a-mailbox cause=refused-but-changed op={kindOf op}")
+           else s!"violation refused-operation-changed-a-mailbox cause={refusedChangedCause before after op} op={kindOf op}{overlapOf before op}")
+        else if ambiguous then "ok trivial-ambiguous-overlap"
         else match pred with
-          | some _ => s!"violation fitting-operation-refused cause=fitting-refused op={kindOf op}"
-          | none => s!"ok nontrivial-refused-unchanged-{kindOf op}"
+          | some _ => s!"violation fitting-operation-refused cause=fitting-refused op={kindOf op}{overlapOf before op}"
+          | none => s!"ok nontrivial-refused-unchanged-{kindOf op}{overlapOf before op}"
       else if status == "ok" then
+        if ambiguous then "ok trivial-ambiguous-overlap" else
         match pred with
         | some p =>
-          if matchesPred before after p then s!"ok nontrivial-accepted-{kindOf op}"
-          else s!"violation accepted-step-differs-from-model cause=model-mismatch op={kindOf op}"
+          if matchesPred before after p then s!"ok nontrivial-accepted-{kindOf op}{overlapOf before op}"
+          else s!"violation accepted-step-differs-from-model cause=model-mismatch op={kindOf op}{overlapOf before op}"
         | none =>
           -- accepted although the model refuses; no maximum is exceeded (checked above)
-          s!"violation accepted-step-the-model-refuses cause=model-mismatch op={kindOf op}"
+          s!"violation accepted-step-the-model-refuses cause=model-mismatch op={kindOf op}{overlapOf before op}"
       else if status == "effect" then
         -- connector update: all or nothing, and exactly when the model accepts
         match pred with
